@@ -299,9 +299,13 @@ SPEC["C12"] = {
    entries (name, content id, enabled, description).  Proofs: factory/OpsFacts.v.
    The model is tied to factory.py by the correspondence check (every operation's return value /
    exception and the whole observable state after every step, on exhaustive and random operation
-   sequences); the reference list is compared with the implementation directly as well.""",
-    "imports": FACTORY_IMPORTS,
+   sequences); the reference list is compared with the implementation directly as well.
+   On real command trees (factory/Build.v, BuildHistory.v): the enabled flag and the `if false` wrapper of the
+   rendered script agree in every reachable state (C12_rendering_agrees_with_flags).""",
+    "imports": FACTORY_IMPORTS + "From SV Require Import Lexer Tables ArgCheck Machine Printer GenTables Text Build BuildFacts BuildSet Load LoadFacts BuildHistory.\n",
     "theorems": [
+        ("C12_rendering_agrees_with_flags", "BuildHistory.history_flags_agree",
+         "on real command trees (factory/Build.v): for every set reached by the editing operations from documented definitions, the rendered script parses, and a filter is wrapped in `if false` in what the parser reads back exactly when its enabled flag is off"),
         ("C12_representation", "OpsFacts.abs_iff",
          "a concrete set represents the reference list sp exactly when it is the image of sp: enabled filters hold their plain content, disabled ones hold it wrapped once in if-false, flags agree"),
         ("C12_step_refines", "OpsFacts.step_refines",
@@ -385,8 +389,11 @@ SPEC["C06"] = {
    recorded in known_findings.json: the proof forced the hypothesis and the real code failed on it), a string argument of an action does not start with ':'; marker lines contain no line feed.
    Not proved: keep/setflag/addflag/removeflag (definitions outside wf_def: known findings of C01/C03), tag orders
    other than the documented one (covered by the differential run and the strict validator).""",
-    "imports": TEXT_IMPORTS + "From SV Require Import Tables ArgCheck ArgSpec Machine Printer CompleteFacts CompleteTree RenderFacts PrintTree GenTables Ops Build BuildFacts BuildSet Load LoadFacts BuildHistory.\n",
+    "imports": TEXT_IMPORTS + "From SV Require Import Tables ArgCheck ArgSpec Machine Printer CompleteFacts CompleteTree RenderFacts PrintTree GenTables Ops Build BuildFacts BuildSet Load LoadFacts BuildHistory FactoryConsts ConstFacts.\n",
     "theorems": [
+        ("C06_tag_extension_map", "ConstFacts.arg_extension_is_the_map", "the model's tag -> extension map for action arguments IS the dict of check_if_arg_is_extension read from factory.py on this run (tools/gen_factory.py)"),
+        ("C06_dispatch_keywords", "ConstFacts.dispatch_is_the_keywords", "the header fallback is taken exactly for names outside the condition keywords read from __create_filter on this run"),
+        ("C06_negatable_names", "ConstFacts.negatable_is_the_tuple", "what a leading `not` negates is the tuple read from the source"),
         ("C06_condition_built", "BuildFacts.build_cond", "every documented condition form: the test __create_filter builds stands for [ctest d]; negation flag and requirements as stated"),
         ("C06_condition_legal", "BuildFacts.cond_wf", "... and that test is legal wherever its extensions are loaded"),
         ("C06_action_built", "BuildFacts.build_act", "every documented action form: the command built stands for [acmd a]"),
@@ -446,8 +453,10 @@ SPEC["C11"] = {
    filters render to scripts with the same trees and that rendering the reloaded set is a fixed point rests on
    C04 (print_parse_general) and is evaluated on the implementation over generated histories, names,
    descriptions and marker prefixes.""",
-    "imports": TEXT_IMPORTS + "From SV Require Import Tables ArgCheck ArgSpec Machine Printer CompleteFacts CompleteTree RenderFacts PrintTree GenTables Ops Build BuildFacts BuildSet Load LoadFacts BuildHistory.\n",
+    "imports": TEXT_IMPORTS + "From SV Require Import Tables ArgCheck ArgSpec Machine Printer CompleteFacts CompleteTree RenderFacts PrintTree GenTables Ops Build BuildFacts BuildSet Load LoadFacts BuildHistory FactoryConsts ConstFacts.\n",
     "theorems": [
+        ("C11_disabled_test", "ConstFacts.disabled_classes_ok", "the loader's `if false` test uses the two classes __isdisabled tests in the source"),
+        ("C11_default_name", "ConstFacts.unnamed_prefix_ok", "the default name of a loaded filter is the format string of from_parser_result"),
         ("C11_history_reload", "BuildHistory.history_reload", "for every set reached by a history of editing operations with documented definitions: the saved text is accepted and from_parser_result returns the same requirements and the filters in order with the same names, descriptions and enabled flags"),
         ("C11_reload_same", "LoadFacts.reload_same", "save, parse, load: same requirements, same names in the same order, same descriptions, same enabled flags"),
         ("C11_comments_attached", "PrintTree.set_parses", "every commented script laid out as FiltersSet.tosieve does parses to its commands with each comment attached to the command it precedes"),
@@ -499,8 +508,11 @@ SPEC["C19"] = {
    Not proved: the read-back on RELOADED sets (trees built by the parser take the list branch of args_as_tuple);
    address conditions, notsize, values with commas (known findings).  These are evaluated on the implementation
    and, for the model, by the differential run on reloaded sets.""",
-    "imports": TEXT_IMPORTS + "From SV Require Import Tables ArgCheck ArgSpec Machine Printer GenTables Ops Build BuildFacts BuildSet Read ReadFacts.\n",
+    "imports": TEXT_IMPORTS + "From SV Require Import Tables ArgCheck ArgSpec Machine Printer GenTables Ops Build BuildFacts BuildSet Read ReadFacts FactoryConsts ConstFacts.\n",
     "theorems": [
+        ("C19_readable_classes", "ConstFacts.readable_is_the_tuple", "get_filter_conditions reads exactly the command classes listed in the source on this run"),
+        ("C19_negation_folding_classes", "ConstFacts.fold_not_only_there", "the negation is folded only for the names the source lists"),
+        ("C19_matchtype_classes", "ConstFacts.matchtype_classes_ok", "get_filter_matchtype tests the classes the source lists"),
         ("C19_conditions_read_back", "ReadFacts.factory_read_filter", "conditions (negated forms included) and match type are read back exactly as supplied"),
         ("C19_actions_read_back", "ReadFacts.factory_read_actions", "actions written with positional strings and value-less tags are read back exactly as supplied"),
         ("C19_example_hypotheses", "ReadFacts.ex_r_ok", "non-vacuity: seven condition forms (five negated) and three actions meet the hypotheses"),
